@@ -71,6 +71,32 @@ pub fn run(o: &Opts, deck: &str) -> String {
         format!("{} {}", overlaps, seen.count_ones())
     });
     out.line(&format!("redeal {} | {}", nr, r.unwrap_or("P P".into())));
+    // the first card a fresh thread draws from a full deck: threads must not replay one stream
+    {
+        let nthreads = 48;
+        let firsts: Vec<u8> = (0..nthreads)
+            .map(|_| std::thread::spawn(|| catch(|| { let mut d = Deck::new(); u8::from(d.draw()) }).unwrap_or(255)).join().unwrap_or(255))
+            .collect();
+        let mut distinct = firsts.clone();
+        distinct.sort();
+        distinct.dedup();
+        out.line(&format!("threadfirst {} | {}", nthreads, distinct.len()));
+    }
+    // a random observation of a street: which of its cards are private must not depend on their rank order
+    // (the highest card of the observation is private with probability 2 / (2 + board cards))
+    for street in [Street::Flop, Street::Turn, Street::Rive] {
+        let n = 6000u32;
+        let r = catch(|| {
+            let mut top_private = 0u32;
+            for _ in 0..n {
+                let ob = robopoker::cards::observation::Observation::from(street);
+                let (pk, pb) = (u64::from(*ob.pocket()), u64::from(*ob.public()));
+                if 63 - pk.leading_zeros() > 63 - pb.leading_zeros() { top_private += 1; }
+            }
+            top_private
+        });
+        out.line(&format!("randobs {} {} | {}", street as isize, n, r.map(|x| x.to_string()).unwrap_or("P".into())));
+    }
     let lines = out.finish();
     format!("{{\"lines\":{},\"draws\":{},\"dealt_hands\":{}}}", lines, total, nd)
 }
